@@ -79,8 +79,8 @@ theorem C19_refines_all_histories (d : Decl) (ops : List Op) :
 and for UNIQUE no *other* index holds the same value. -/
 theorem C19_array_set_accepted_iff (d : Decl) (a : Arr) (h : Reachable d (.arr a)) (i : Int) (x : Val) :
     (a.set i x).2 = .ok ↔
-      (d.lo ≤ i ∧ i ≤ a.hi ∧ x.ty = d.base ∧
-        (d.unique = true → ∀ j ∈ indices d.lo a.hi, j ≠ i → absArr a j ≠ some x)) := by
+      (d.lo ≤ i ∧ i ≤ a.hi ∧ conforms x.ty d.base = true ∧
+        (d.unique = true → ∀ j ∈ indices d.lo a.hi, j ≠ i → (absArr a j).map Val.key ≠ some x.key)) := by
   have hi : ArrInv d a := reachable_inv h
   have hs := (arr_set_sim d a hi i x).1
   simp only [step, hi.hi] at hs
@@ -149,11 +149,11 @@ theorem C19_list_set_accepted_iff (d : Decl) (l : Lst) (h : Reachable d (.lst l)
 
 /-- BAG `add` is accepted iff the element is of the base type and the bag stays within its upper bound. -/
 theorem C19_bag_add_accepted_iff (d : Decl) (b : Bag) (h : Reachable d (.bag b)) (x : Val) :
-    (b.add x).2 = .ok ↔ (x.ty = d.base ∧ withinUpper d (b.cells.length + 1)) := by
+    (b.add x).2 = .ok ↔ (conforms x.ty d.base = true ∧ withinUpper d (b.cells.length + 1)) := by
   have hi : BagInv d b := reachable_inv h
   have hs := (bag_add_sim d b hi x).1
   simp only [step] at hs
-  have hiff : bagAddAllowed d (sortL b.cells) x ↔ (x.ty = d.base ∧ withinUpper d (b.cells.length + 1)) := by
+  have hiff : bagAddAllowed d (sortL b.cells) x ↔ (conforms x.ty d.base = true ∧ withinUpper d (b.cells.length + 1)) := by
     unfold bagAddAllowed; rw [length_sortL]
   rw [← hiff]
   by_cases hal : bagAddAllowed d (sortL b.cells) x
@@ -171,13 +171,14 @@ theorem C19_bag_add_accepted_iff (d : Decl) (b : Bag) (h : Reachable d (.bag b))
 /-- SET `add` is accepted iff the element is of the base type and is either already a member (the set is then left
 as it is) or fits within the upper bound. -/
 theorem C19_set_add_accepted_iff (d : Decl) (s : PSet) (h : Reachable d (.set s)) (x : Val) :
-    (s.add x).2 = .ok ↔ (x.ty = d.base ∧ (x ∈ s.cells ∨ withinUpper d (s.cells.length + 1))) := by
+    (s.add x).2 = .ok ↔
+      (conforms x.ty d.base = true ∧ (x.key ∈ s.cells.map Val.key ∨ withinUpper d (s.cells.length + 1))) := by
   have hi : SetInv d s := reachable_inv h
   have hs := (set_add_sim d s hi x).1
   simp only [step] at hs
   have hiff : setAddAllowed d (sortL s.cells) x ↔
-      (x.ty = d.base ∧ (x ∈ s.cells ∨ withinUpper d (s.cells.length + 1))) := by
-    unfold setAddAllowed; rw [length_sortL, mem_sortL]
+      (conforms x.ty d.base = true ∧ (x.key ∈ s.cells.map Val.key ∨ withinUpper d (s.cells.length + 1))) := by
+    unfold setAddAllowed; rw [length_sortL, keyMem_sortL]
   rw [← hiff]
   by_cases hal : setAddAllowed d (sortL s.cells) x
   · rw [if_pos hal] at hs
@@ -217,11 +218,12 @@ theorem C19_size_is_sizeof (d : Decl) (s : Agg) (h : Reachable d s) :
   rw [C19_step_refines d s h .size]
 
 /-- A SET never holds a duplicate, after any history. -/
-theorem C19_set_never_duplicates (d : Decl) (s : PSet) (h : Reachable d (.set s)) : s.cells.Nodup :=
+theorem C19_set_never_duplicates (d : Decl) (s : PSet) (h : Reachable d (.set s)) : (s.cells.map Val.key).Nodup :=
   (show SetInv d s from reachable_inv h).nodup
 
 /-- Every element stored in a SET is of the declared base type, after any history. -/
-theorem C19_set_elements_typed (d : Decl) (s : PSet) (h : Reachable d (.set s)) : ∀ x ∈ s.cells, x.ty = d.base :=
+theorem C19_set_elements_typed (d : Decl) (s : PSet) (h : Reachable d (.set s)) :
+    ∀ x ∈ s.cells, conforms x.ty d.base = true :=
   (show SetInv d s from reachable_inv h).typed
 
 /-- No duplicate in a SET or in a UNIQUE ARRAY/LIST: after any history, the EXPRESS value the object stands for
@@ -235,13 +237,13 @@ theorem C19_unique_never_duplicates (d : Decl) (s : Agg) (h : Reachable d s) : U
 
 /-- … spelled out for a UNIQUE LIST: its elements are pairwise different after any history. -/
 theorem C19_unique_list_nodup (d : Decl) (l : Lst) (h : Reachable d (.lst l)) (hu : d.unique = true) :
-    l.cells.Nodup :=
+    (l.cells.map Val.key).Nodup :=
   (C19_unique_never_duplicates d (.lst l) h) hu
 
 /-- … and for a UNIQUE ARRAY: two different indices never hold the same value after any history. -/
 theorem C19_unique_array_distinct (d : Decl) (a : Arr) (h : Reachable d (.arr a)) (hu : d.unique = true)
-    (j k : Int) (hj : j ∈ indices d.lo a.hi) (hk : k ∈ indices d.lo a.hi) (hjk : j ≠ k) (x : Val)
-    (hx : absArr a j = some x) : absArr a k ≠ some x :=
+    (j k : Int) (hj : j ∈ indices d.lo a.hi) (hk : k ∈ indices d.lo a.hi) (hjk : j ≠ k) (x : Key)
+    (hx : (absArr a j).map Val.key = some x) : (absArr a k).map Val.key ≠ some x :=
   (C19_unique_never_duplicates d (.arr a) h) hu a.hi (show ArrInv d a from reachable_inv h).hi j hj k hk hjk x hx
 
 /-- A refused operation leaves the aggregate's value as it was. -/
@@ -270,6 +272,23 @@ theorem C19_refused_keeps_value (d : Decl) (s : Agg) (h : Reachable d s) (op : O
     simp only [step] at h2 ⊢
     cases op <;> simp only at h2 ⊢ <;> first | rfl | (split <;> first | rfl | (rename_i hc; simp [hc] at h2))
 
+/-! ## value equality -/
+
+/-- Python's `==` on the value universe (`veq`: INTEGER, whole REAL and BOOLEAN values compare by number, everything else
+only with itself) is an equivalence relation; the container specifications and theorems above are stated modulo it
+(`Val.key`): "duplicate", "member" and VALUE_UNIQUE mean equal *values*, as in EXPRESS (`1 = 1.0`). -/
+theorem C19_value_equality_is_an_equivalence :
+    (∀ x : Val, veq x x = true) ∧ (∀ x y : Val, veq x y = true → veq y x = true) ∧
+    (∀ x y z : Val, veq x y = true → veq y z = true → veq x z = true) :=
+  ⟨veq_refl, fun _ _ => veq_symm, fun _ _ _ => veq_trans⟩
+
+/-- NUMBER as a base type: INTEGER and REAL values conform (and only they), and equal numbers of the two types are one
+element: a `SET OF NUMBER` holding `INTEGER(1)` takes `REAL(1.0)` as already present, a UNIQUE LIST refuses it. -/
+example : runDecl ⟨.set, 0, some 2, 5, false, false⟩ [.add ⟨0, 1⟩, .add ⟨2, 1⟩, .size, .add ⟨3, 1⟩, .add ⟨2, 4⟩, .size]
+    = some [.ok, .ok, .int 1, .refused, .ok, .int 2] := by decide
+example : runDecl ⟨.list, 0, none, 5, true, false⟩ [.set 1 ⟨0, 1⟩, .set 2 ⟨2, 1⟩, .set 2 ⟨2, 2⟩, .unique]
+    = some [.ok, .refused, .ok, .logical .t] := by decide
+
 /-! ## the type check comes first -/
 
 /-- Statement order of the four mutators (regenerated from AggregationDataTypes.py): on every path
@@ -282,7 +301,7 @@ theorem C19_type_check_precedes_membership_and_store :
 refused and leaves the value as it was — whatever the aggregate holds, in particular also when it holds a member that
 python considers equal to the offer (`INTEGER(1) == REAL(1.0) == True`). -/
 theorem C19_wrong_typed_offer_refused (d : Decl) (s : Agg) (h : Reachable d s) (op : Op) (x : Val)
-    (hop : (∃ i, op = .set i x) ∨ op = .add x) (hx : x.ty ≠ d.base) :
+    (hop : (∃ i, op = .set i x) ∨ op = .add x) (hx : ¬ (conforms x.ty d.base = true)) :
     (s.step op).2.obs = .refused ∧ abs (s.step op).1 = abs s := by
   have hspec : (step d (abs s) op).2 = .refused := by
     generalize abs s = v
@@ -376,7 +395,7 @@ theorem C19_builtins_refuse_non_aggregates (f : BFn) (x : Val) : (Builtin.call f
 otherwise TRUE iff all elements differ. -/
 theorem C19_value_unique_three_valued (d : Decl) (a : Arr) (h : Reachable d (.arr a)) :
     a.valueUnique = (if ∃ j ∈ indices d.lo a.hi, absArr a j = none then Logical.u
-                     else if ((indices d.lo a.hi).map (absArr a)).Nodup then Logical.t else Logical.f) :=
+                     else if (((indices d.lo a.hi).map (absArr a)).map (Option.map Val.key)).Nodup then Logical.t else Logical.f) :=
   (arr_valueUnique d a (reachable_inv h)).symm
 
 /-! ## non-interference between containers -/
@@ -420,8 +439,9 @@ example : runDecl ⟨.array, 1, some 3, .agg .array 2, false, true⟩
 /-- Element type check at every nesting depth: `check_type` accepts an element exactly when its type tree equals the
 declared base type — the aggregate kind at *every* level and the simple type at the bottom (bounds and flags of element
 aggregates are not compared, as in the code).  Depends on the regenerated comparison mode (`elementBaseCmp = structural`). -/
-theorem C19_check_type_structural (x : Val) (e : Ty) : checkType x e = true ↔ x.ty = e :=
-  checkType_iff x e
+theorem C19_check_type_structural (x : Val) (e : Ty) :
+    (checkType x e = true ↔ conforms x.ty e = true) ∧ (e ≠ .simple 5 → (checkType x e = true ↔ x.ty = e)) :=
+  ⟨checkType_iff x e, fun hb => (checkType_iff x e).trans (conforms_eq_iff x.ty e hb)⟩
 
 /-- Before fixes/C19-5 (`instance.get_type() == expected_type.get_type()`, identity on aggregate objects): with three
 levels of nesting a structurally equal element was accepted only when built over the declaration's own base-type object. -/
